@@ -200,6 +200,9 @@ func (g *Gen) expr(depth int) string {
 	if g.Bias == "opt" && r.Bool(0.04) {
 		return g.valueParamRecursion()
 	}
+	if r.Bool(0.03) {
+		return g.rare(depth)
+	}
 	switch g.Bias {
 	case "opt":
 		w = []int{6, 8, 5, 8, 8, 8, 6, 3, 3, 2, 4, 2, 10, 4, 10, 3, 3, 4}
@@ -990,4 +993,75 @@ func MutateProgram(r *kernel.Rand, src string) string {
 		}
 	}
 	return src
+}
+
+// rare: language features that seldom meet the rewrites and the natives: keyword-named keys,
+// comments, format strings with interpolation, destructuring in reduce/foreach, limit(0), long and
+// deep literals, unary minus on non-literals, try without catch, closures recursing through closures.
+func (g *Gen) rare(depth int) string {
+	s := g.rare0(depth)
+	for n := 0; strings.Contains(s, "E") && n < 40; n++ {
+		i := strings.Index(s, "E")
+		if (i > 0 && isWord(s[i-1])) || (i+1 < len(s) && isWord(s[i+1])) {
+			s = s[:i] + "\x00" + s[i+1:] // part of a word ($ENV, E-notation): keep
+			continue
+		}
+		s = s[:i] + "(" + g.expr(depth-1) + ")" + s[i+1:]
+	}
+	return strings.ReplaceAll(s, "\x00", "E")
+}
+
+func isWord(c byte) bool {
+	return c == '_' || c == '$' || c >= '0' && c <= '9' || c >= 'a' && c <= 'z' || c >= 'A' && c <= 'Z'
+}
+
+func (g *Gen) rare0(depth int) string {
+	r := g.r
+	e := func() string { return "E" }
+	switch r.Intn(16) {
+	case 0:
+		return kernel.Pick(r, []string{`{if: 1, then: 2, and: 3}`, `{if: 1}.if`, `{and: .}.and`, `{or: 1, not: 2} | .or, .not`, `.then?`, `.end?`, `{reduce: 1}.reduce`, `{def: E}.def`, `{"if": 1} | .if`, `{__loc__: 1}.__loc__`, `{true: 1, null: 2} | keys`, `.if? // .else?`})
+	case 1:
+		return "(" + e() + " # comment ) | nothing\n | " + e() + ")"
+	case 2:
+		return kernel.Pick(r, []string{`@base64 "x\(E)y"`, `@json "a\(E)b\(1)"`, `@text "\(E)"`, `@sh "echo \(E)"?`, `@uri "\(E)&\(E)"`, `@html "<\(E)>"`, `@csv "\([E])"?`, `"\(E) and \("\(E)")"`, `@base64 "\(@json "\(E)")"`, `{"k\(E)": 1}?`, `{@base64 "k\(1)": E}?`})
+	case 3:
+		return kernel.Pick(r, []string{"reduce .[]? as [$a, $b] (0; . + 1)", "reduce (E) as {a: $x} (null; [., $x])", "foreach .[]? as [$a] (0; . + 1; [$a, .])", "foreach (E) as {a: $x, $b} (0; . + 1; [$x, $b, .])", "reduce (E) as [$a] ?// $a (0; . + 1)", "foreach (1, 2) as $x (E; . ; [$x, .])?", "reduce (E, E) as $x ((1, 2); . + 1)", "foreach (E) as $x (0; (., 1); .)", "reduce empty as $x (E; .)", "[foreach range(3) as $i (E; .; $i)]"})
+	case 4:
+		return kernel.Pick(r, []string{"limit(0; E)", "[limit(0; E, error)]", "limit(1; E)", "limit(-1; E)?", "first(limit(0; E), 1)", "[limit(2; E, E, E)]", "limit(E | numbers; 1, 2, 3)?", "isempty(limit(0; E))", "until(true; E)", "[limit(3; repeat(E))] | length"})
+	case 5:
+		n := kernel.Pick(r, []int{17, 64, 257, 300})
+		xs := make([]string, n)
+		for i := range xs {
+			xs[i] = strconv.Itoa((i * 7) % 11)
+		}
+		return "[" + strings.Join(xs, ",") + "]" + kernel.Pick(r, []string{"", " | length", "[5]", " | add", " | .[-1]", "[2:4]", " | unique | length"})
+	case 6:
+		n := kernel.Pick(r, []int{9, 33, 100})
+		xs := make([]string, n)
+		for i := range xs {
+			xs[i] = fmt.Sprintf("k%d: %d", (i*5)%n, i)
+		}
+		return "{" + strings.Join(xs, ", ") + "}" + kernel.Pick(r, []string{" | length", ".k3", " | keys | length", " | add", " | to_entries | length"})
+	case 7:
+		d := kernel.Pick(r, []int{5, 30})
+		return strings.Repeat("[", d) + kernel.Pick(r, []string{"1", "E", "{a: 1}", ""}) + strings.Repeat("]", d) + kernel.Pick(r, []string{"", " | flatten", " | tojson | length", "[0][0]", " | [paths] | length"})
+	case 8:
+		d := kernel.Pick(r, []int{4, 25})
+		return strings.Repeat("{a: ", d) + kernel.Pick(r, []string{"1", "E", "[1]"}) + strings.Repeat("}", d) + kernel.Pick(r, []string{"", ".a.a", " | tojson | length", " | [paths] | length", " | .a.a.a.a?"})
+	case 9:
+		return kernel.Pick(r, []string{"-(E)?", "-(.a?)?", "-(1, 2)", "(-(E))?", "[-(.[]?)]?", "-(-(1))", "- 1 - -1", "-(E | numbers)", "def nf: 1; -nf", "1 as $n | -$n", "-(1 as $n | $n)", "-.a?", "-.[0]?", "-length?", "-(\"a\" | length)", "[.[]? | -.]?"})
+	case 10:
+		return kernel.Pick(r, []string{"try E", "try error", "try (E, error, E)", "[try (E | error)]", "try (try error catch error)", "(try error(E)) // 1", "try E | try E", ".a? |= try E", "try first(E)", "[.[]? | try E]"})
+	case 11:
+		return kernel.Pick(r, []string{"def cl(g): g | cl(g)?; [limit(3; cl(E))]?", "def cl(g): if . == null then 1 else g end; cl(E)", "def cl(g; h): g | h; cl(E; E)", "def cl(g): def inner: g; inner; cl(E)", "def cl($a; g): [$a, g]; cl(E; E)", "def cl(g): [g, g]; cl(E, 1)", "def cl(g): reduce g as $x (0; . + 1); cl(E)", "def cl(g): path(g)?; cl(.a?)", "def cl(g): g as $x | [$x]; cl(E)", "def cl(g): label $l | g, break $l; cl(E)", "def cl(g): try g catch .; cl(E | error)", "def cl(g): first(g); cl(E, E)"})
+	case 12:
+		return kernel.Pick(r, []string{". as [$a] ?// {a: $a} ?// $a | [$a]", "(E) as [$a, [$b]] ?// [$a, $b] | [$a, $b]", ".[]? as [$a] ?// $a | $a", "[.[]? as {a: $x} ?// [$x] ?// $x | $x]", "(E) as [$a] ?// $a | if ($a | type) == \"number\" then error else $a end", "[[1, 2], 3][] as [$a] ?// $a | [$a]", ". as {a: [$x]} ?// {a: $x} | $x?"})
+	case 13:
+		return kernel.Pick(r, []string{"path(getpath([\"a\", \"b\"]))", "path(getpath([\"a\"]) | .b?)", "[paths(getpath([\"a\"])?)]?", "path(.a | getpath([\"b\"]))?", "path(getpath([\"a\", 0])?)", "path(first(getpath([\"a\"]), .b))", "del(getpath([\"a\"]))?", "getpath([\"a\"]) |= E", "(getpath([\"a\"], [\"b\"])) = 1", "path(getpath(E | [.])?)", "[paths] | map(. as $p | $p) | length", "path(..) | length", "path(limit(1; .[]?))", "path(if .a? then .a else .b? end)", "path(.a? // .b?)", "path(try .a catch .b)?", "path(.[]? | select(E))", "path(recurse(.[]?; true) | numbers)?", "path(E)?", "path(first(.a?, .b?))", "path(label $l | .a?, break $l)", "path(reduce (1, 2) as $x (.; .a?))", "path(foreach (1, 2) as $x (.; .a?))", "path(. as $d | .a?)", "path(input?)", "path($__loc__)?", "path(empty)", "path(error)?", "[path(.. | select(type == \"number\"))]", "path(.[1:]? | .[0]?)", "path(.a?[1:]?)", "path(to_entries?)?", "path(def pf: .a?; pf | pf)"})
+	case 14:
+		return kernel.Pick(r, []string{"ltrimstr(E)?", "rtrimstr(E)?", "[splits(\"a\")]?", "[splits(E | strings)]?", "ascii_downcase?", "ascii_upcase?", "@json", "tojson", "(tojson | fromjson)", "[E] | tojson", "env | type", "$ENV | type", "$ENV.PATH? | type", "input_filename", "[splits(\", *\"; null)]?", "sub(\"(?<x>a)\"; \"\\(.x)b\")?", "[match(\"a\"; \"g\").offset]?", "test(\"A\"; \"i\")?", "ascii?", "implode?", "explode?", "@base32 | @base32d", "@base64 | @base64d?", "tojson | length", "[.. | tojson] | length", "significand?", "logb?", "gamma?", "frexp?", "[.[]? | tostring]", "utf8bytelength?", "ltrimstr(\"a\") | rtrimstr(\"c\")", "trim?", "toarray", "have_literal_numbers", "getpath([\"a\"]; 1)?", "splits(\"\")?", "abs?", "trimstr(\"a\")?", "pick(.a?)?", "debug", "debug(\"m\")", "stderr", "input_line_number?", "$__prog_args?", "halt_error?", "error(null)?", "[limit(3; range(E | numbers))]?", "tostream", "[tostream] | fromstream(.[])", "getpath([\"a\"]) as [$x] | $x", "@sh?", "@csv?", "@tsv?", "@html", "@uri", "@text", "ascii(65)?", "[1, 2] | implode", "\"a,b\" | split(\",\"; null)", "\"abc\" | test(\"B\"; \"ix\")", "\"aXbxc\" | [splits(\"x\"; \"i\")]", "now | type", "\"2015-03-05T23:51:47Z\" | fromdate", "0 | todate", "0 | gmtime | mktime", "0 | strftime(\"%Y\")", "\"10\" | strptime(\"%H\") | type", "0 | localtime | type", "0 | strflocaltime(\"%Y\") | type", "0 | date", "0 | dateadd(\"seconds\"; 1)?", "\"x\" | ltrimstr(1)", "infinite | floor", "nan | tostring", "-0 | tostring", "1e1000 | tostring", "100000000000000000000 | . + 1", "9007199254740993 | tojson", "[1.0, 1.10, 1e2] | tojson", "1.000 | tostring", "(1 / 3) | tostring", "3.0 | floor | tojson", "[limit(5; range(0; 1; 0.3))]", "[range(5; 0; -2)]", "[range(0; 1; 0)] | length?", "pow(2; 0.5) | floor", "[splits(\"\\\\s\")]?"})
+	default:
+		return kernel.Pick(r, []string{"input?", "[inputs]?", "first(inputs)?", "input as $x | $x?", "try input catch .", "[limit(2; inputs)]?", "(input? // 1)", "$__loc__", "$__loc__.line", "{$__loc__}", "[$__loc__] | length", "try error($__loc__) catch .line", "input_line_number?", "get_search_list?", "[splits(\"a\")?]", "ltrimstr(\"x\")", "modulemeta?", "getpath([\"a\"])?", "halt_error?", "(label $f | E, break $f)", "label $a | label $b | (E, break $a, break $b)", "label $a | (label $b | E, break $a), 9", "[label $a | .[]? | if . == 2 then break $a else . end]", "first(label $a | (E, break $a))", "[range(3) as $i | label $a | $i, break $a]", "label $a | def lf: break $a; (E, lf)", "label $a | try break $a catch .", "label $a | (break $a)?", "def lf(g): label $a | g, break $a; [lf(E)]", "label $a | reduce (1, 2) as $x (0; break $a)", "[label $a | foreach (1, 2, 3) as $x (0; . + $x; if . > 2 then ., break $a else . end)]"})
+	}
 }
